@@ -38,7 +38,18 @@ func nativeFiles(fam, bounds string, chunk int) (map[string]string, int) {
 	files["rt/rt.go"] = gen.NativeRT
 	var pkgNames []string
 	n := 0
-	if fam == "defers" {
+	if fam == "std" {
+		sf, cnt, err := stdNativeFiles()
+		if err != nil {
+			fmt.Fprintln(os.Stderr, "LOADERR", err)
+			os.Exit(2)
+		}
+		for k, v := range sf {
+			files[k] = v
+		}
+		pkgNames = append(pkgNames, "s0")
+		n = cnt
+	} else if fam == "defers" {
 		funcs := deferFuncs(bounds)
 		n = len(funcs)
 		for first := 0; first < len(funcs); first += 1500 {
@@ -103,7 +114,14 @@ func nativeFiles(fam, bounds string, chunk int) (map[string]string, int) {
 	fmt.Sscanf(os.Args[2], "%d", &h)
 	rt.Horizon = h
 	rt.WantLogs = len(os.Args) > 3 && os.Args[3] == "logs"
-	enc := json.NewEncoder(os.Stdout)
+	if len(os.Args) > 3 && os.Args[3] == "timeout" {
+		rt.TimeoutMs = 2000
+	}
+	out := os.Stdout
+	if devnull, err := os.OpenFile(os.DevNull, os.O_WRONLY, 0); err == nil {
+		os.Stdout = devnull // subject code (std calls) may print
+	}
+	enc := json.NewEncoder(out)
 	for j, e := range all {
 		if j%n != i {
 			continue
@@ -123,6 +141,7 @@ func genNative(args []string) int {
 	fam := fs.String("family", "taint", "program family")
 	chunk := fs.Int("chunk", 400, "programs per native package")
 	hashOnly := fs.Bool("hash", false, "print the content hash only")
+	fs.StringVar(&entriesFile, "entries", "", "std family: entries file written by `vp stdtab`")
 	fs.Parse(args)
 	files, nprogs := nativeFiles(*fam, *bounds, *chunk)
 	h := sha256.New()
